@@ -74,13 +74,18 @@ def run(R):
         axis = R.rng.choice([0, 0, 1])
         R.count(('marg', i), nontrivial=style != 'small')
         with np.errstate(all='ignore'):
+            arg = a.copy() if kind == 'ndarray' else np.matrix(a.copy())
             if kind == 'ndarray':
-                out = pr.ln_marginalise(a.copy(), axis=axis, dV=dV)
+                out = pr.ln_marginalise(arg, axis=axis, dV=dV)
             elif kind == 'matrix':
-                out = pr.ln_marginalise(np.matrix(a.copy()), axis=axis, dV=dV)
+                out = pr.ln_marginalise(arg, axis=axis, dV=dV)
             else:
-                out = pr.LnPDF(np.matrix(a.copy()), dV=dV).marginalise(axis=axis)._ln_pdf
+                out = pr.LnPDF(arg, dV=dV).marginalise(axis=axis)._ln_pdf
         out = np.asarray(out, dtype=float).flatten()
+        if not np.array_equal(np.asarray(arg, dtype=float), a):
+            # the log-probabilities handed in are still needed afterwards (the same LnPDF is marginalised, normalised and output)
+            bad = bad or {'op': 'marginalise', 'check': 'the array handed in is left unchanged', 'input': a.tolist(), 'axis': axis, 'dV': dV,
+                          'container': kind, 'input_after_the_call': np.asarray(arg, dtype=float).tolist()}
         slices = [a[:, j] for j in range(cols)] if axis == 0 else [a[i_, :] for i_ in range(rows)]
         if i < 2:
             R.sample({'op': 'marginalise', 'input': a.tolist(), 'axis': axis, 'dV': dV, 'container': kind, 'output': out.tolist()})
@@ -122,7 +127,11 @@ def run(R):
         R.count(('norm', i), nontrivial=style != 'small')
         with np.errstate(all='ignore'):
             if kind == '1d':
-                out = pr.ln_normalise(v.copy(), dV)
+                arg_n = v.copy()
+                out = pr.ln_normalise(arg_n, dV)
+                if not np.array_equal(np.asarray(arg_n, dtype=float), np.asarray(v, dtype=float)):
+                    bad = bad or {'op': 'normalise', 'check': 'the array handed in is left unchanged', 'input': np.asarray(v, dtype=float).tolist(), 'dV': dV,
+                                  'input_after_the_call': np.asarray(arg_n, dtype=float).tolist()}
             elif kind == 'matrix_row':
                 out = pr.ln_normalise(np.matrix(v.copy()), dV)
             else:
